@@ -434,6 +434,75 @@ pub fn run(ctx: &mut Ctx, focus: Focus) {
         }
         texts.push(text);
     }
+    // C14 also covers the stages before compile: apply, the compiler ops and reduce on generated
+    // templates (parameters, queries, clock ops, min_utxo) with boundary-heavy arguments. A panic
+    // needs no model to be recognised: it is reported directly (id 147).
+    let mut impl_violations = vec![];
+    let mut stage_runs = 0u64;
+    if focus == Focus::C14 {
+        use crate::c06::{make_env, run_schedule, Stage};
+        let n_stage = if ctx.thorough { 6000 } else { 600 };
+        for i in 0..n_stage {
+            let mut gr = r.fork();
+            let depth = 1 + gr.below(4) as u32;
+            let tx = {
+                let mut g = Gen::new(&mut gr);
+                g.wild = i % 5 == 4;
+                g.template(depth)
+            };
+            let params = tx3_tir::reduce::find_params(&tx);
+            let mut env = make_env(&mut gr, &tx, &params);
+            for (k, ty) in &params {
+                if *ty == tx3_tir::model::core::Type::Int && gr.chance(1, 2) {
+                    env.args.insert(k.clone(), tx3_tir::reduce::ArgValue::Int(boundary(&mut gr)));
+                }
+            }
+            for sched in [
+                vec![Stage::A, Stage::F, Stage::R, Stage::C, Stage::R, Stage::I, Stage::R],
+                vec![Stage::A, Stage::I, Stage::F, Stage::C, Stage::R],
+            ] {
+                let (k, _, _) = run_schedule(&tx, &env, &sched);
+                stage_runs += 1;
+                *hist.entry(format!("stage_run_kind_{}", k)).or_default() += 1;
+                if k == 2 {
+                    let site = crate::last_panic();
+                    *panics.entry(site.clone()).or_default() += 1;
+                    if impl_violations.len() < 20 {
+                        impl_violations.push(serde_json::json!({"index": -1, "ids": [147], "what": "a stage before compile panicked", "site": site,
+                            "schedule": format!("{:?}", sched), "template": tx_gal(&tx), "args": args_gal(&env.args)}));
+                    }
+                }
+            }
+        }
+        // ... and the whole of resolve_tx (input selection, the fee loop, compile) on the resolver's
+        // templates, with quantities from the boundary list and protocol parameters near 2^64
+        let templates: Vec<Option<tir::Tx>> = (0..6).map(|k| crate::c05::lower_src(&crate::c05::template_src(k, 0), "t")).collect();
+        let n_res = if ctx.thorough { 3000 } else { 300 };
+        for _ in 0..n_res {
+            let mut gr = r.fork();
+            let kind = gr.below(6) as usize;
+            let Some(tx) = &templates[kind] else { continue };
+            let pp = crate::c05::random_pp(&mut gr);
+            let q = if gr.chance(1, 2) { boundary(&mut gr) } else { 1_000_000 + gr.below(5_000_000) as i128 };
+            let amounts: Vec<i128> = (0..1 + gr.below(2)).map(|_| if gr.chance(1, 4) { *gr.pick(&[1i128, u64::MAX as i128, (u64::MAX as i128) + 1, i64::MAX as i128]) } else { 1 + gr.below(100_000_000) as i128 }).collect();
+            let store = crate::c05::sender_store(&mut gr, &amounts);
+            let mut rec = crate::c05::new_rec(&pp);
+            let out = crate::c05::resolve_with(&mut rec, tx, &crate::c05::std_args(q), &store, *gr.pick(&[0usize, 3, 10]));
+            stage_runs += 1;
+            *hist.entry(format!("resolve_kind_{}", out.kind)).or_default() += 1;
+            if out.kind == 2 {
+                let site = crate::last_panic();
+                *panics.entry(site.clone()).or_default() += 1;
+                if impl_violations.len() < 20 {
+                    impl_violations.push(serde_json::json!({"index": -1, "ids": [147], "what": "resolve_tx panicked", "site": site,
+                        "template": crate::c05::template_src(kind as u64, 0), "pparams": format!("{:?}", pp), "quantity": q.to_string(),
+                        "utxo_lovelace": amounts.iter().map(|a| a.to_string()).collect::<Vec<_>>()}));
+                }
+            }
+        }
+        ctx.meta.insert("stage_runs".into(), serde_json::json!(stage_runs));
+    }
+    ctx.meta.insert("impl_violations".into(), serde_json::json!(impl_violations));
     ctx.write_cases(id, "From Tx3 Require Import Base Assets Tir Reduce PlutusData Compile Compile_check.", "case", "run", &texts, 60);
     ctx.meta.insert("evaluations".into(), serde_json::json!(texts.len()));
     ctx.meta.insert("programs".into(), serde_json::json!(texts.len()));
@@ -443,6 +512,6 @@ pub fn run(ctx: &mut Ctx, focus: Focus) {
     ctx.meta.insert("samples".into(), serde_json::json!(samples));
     ctx.meta.insert(
         "rule".into(),
-        serde_json::json!("closed IR transactions (1-4 inputs as reference lists or UTxO sets with optional redeemers and permuted txids, 1-3 outputs with lovelace/native amounts, optional datum, 0-3 mints/burns over 3 policies, withdrawal / plutus_witness / native_witness / cardano_publish / treasury_donation directives, validity, metadata, references, collateral, signers); C02: amounts, fee, slots, keys are closed integer expressions over boundary values (0, +-1, 23/24, 2^8, 2^16, 2^31, 2^32, 2^63, 2^64, i128 extremes) and are reduced first; C08: up to 4 script inputs, equal and distinct policies, up to 2 withdrawals; C10: optional outputs, cancelling mint/burn, missing cost models, compile twice; C02, C14: a quarter of the output amounts are sums / differences / negations of asset lists with entries at the ends of the i128 range and repeated classes; C14: wrong-length hashes and txids, string references, malformed scripts and addresses, missing cost models, asset amounts that are not numbers, IntoScript coercions"),
+        serde_json::json!("closed IR transactions (1-4 inputs as reference lists or UTxO sets with optional redeemers and permuted txids, 1-3 outputs with lovelace/native amounts, optional datum, 0-3 mints/burns over 3 policies, withdrawal / plutus_witness / native_witness / cardano_publish / treasury_donation directives, validity, metadata, references, collateral, signers); C02: amounts, fee, slots, keys are closed integer expressions over boundary values (0, +-1, 23/24, 2^8, 2^16, 2^31, 2^32, 2^63, 2^64, i128 extremes) and are reduced first; C08: up to 4 script inputs, equal and distinct policies, up to 2 withdrawals; C10: optional outputs, cancelling mint/burn, missing cost models, compile twice; C02, C14: a quarter of the output amounts are sums / differences / negations of asset lists with entries at the ends of the i128 range and repeated classes; C14: wrong-length hashes and txids, string references, malformed scripts and addresses, missing cost models, asset amounts that are not numbers, IntoScript coercions; plus 600 (thorough 6000) generated templates with parameters, queries and compiler ops run through apply / compiler ops / reduce in two stage orders with integer arguments from the boundary list, and 300 (thorough 3000) runs of resolve_tx on the resolver's templates with boundary quantities, boundary UTxO amounts and protocol parameters near 2^64 (panics reported directly, id 147)"),
     );
 }
